@@ -183,8 +183,38 @@ def run_chunk(common, ch, cfgs_of, maxlen, label="engine", sanitize=False):
                 cn = cfg_name(c)
                 for s in ins:
                     fh.write("%d %s %s\n" % (g.gid, cn, s.encode("latin1").hex() or "-"))
+    # surface terms (spec side): resolved against the dumped names, never against the structure
+    name_to_node = {}
+    root_of = {}
+    for l in p.stdout.split("\n"):
+        if l.startswith("NAME "):
+            t = l.split()
+            if t[2] != "-":
+                name_to_node[bytes.fromhex(t[2]).decode("latin1")] = int(t[1])
+        elif l.startswith("REG "):
+            t = l.split()
+            root_of[int(t[1])] = int(t[2])
+    surf = os.path.join(d, "surf.%d.txt" % os.getpid())
+    with open(surf, "w") as fh:
+        for g in ch:
+            if g.surface is None or g.gid not in root_of:
+                continue
+            order = [n for n, _ in g.rules]
+            if any(n not in g.surface for n in order):
+                continue
+            pairs = []
+            okn = True
+            for n in order:
+                node = name_to_node.get("g%d::%s" % (g.gid, n))
+                if node is None:
+                    okn = False
+                    break
+                pairs.append("%s:%d" % (n, node))
+            if not okn:
+                continue
+            fh.write("SURF %d %d %s | %s | %s\n" % (g.gid, root_of[g.gid], ",".join(pairs) or "-", g.surface["G"], " | ".join(g.surface[n] for n in order)))
     try:
-        pm = subprocess.run([common["model_exe"], dump, cases, "4000"], stdout=subprocess.PIPE, stderr=subprocess.STDOUT, text=True, errors="replace", timeout=1800)
+        pm = subprocess.run([common["model_exe"], dump, cases, "4000", surf], stdout=subprocess.PIPE, stderr=subprocess.STDOUT, text=True, errors="replace", timeout=1800)
         if pm.returncode != 0:
             K.error = "model driver failed: " + pm.stdout[-2000:]
             return K
@@ -205,7 +235,7 @@ def run_chunk(common, ch, cfgs_of, maxlen, label="engine", sanitize=False):
             K.error = "implementation crashed (rc=%d) on %s: %s" % (pi.returncode, last[0], K.crash["report"])
             return K
     finally:
-        for f in (dump, cases):
+        for f in (dump, cases, surf):
             try:
                 os.remove(f)
             except OSError:
@@ -222,6 +252,15 @@ def run_chunk(common, ch, cfgs_of, maxlen, label="engine", sanitize=False):
             nm = bytes.fromhex(t[2]).decode("latin1") if t[2] != "-" else ""
             ms = bytes.fromhex(t[3]).decode("latin1") if t[3] != "-" else ""
             K.names[int(t[1])] = (nm, ms)
+    K.tie = {}
+    K.spec = {}
+    for l in pm.stdout.split("\n"):
+        if l.startswith("TIE "):
+            t = l.split()
+            K.tie[int(t[1])] = t[2]
+        elif l.startswith("SPEC "):
+            t = l.split()
+            K.spec[(int(t[1]), t[2])] = " ".join(t[3:])
     K.impl = [parse_run_line(l) for l in pi.stdout.split("\n") if l.startswith("RUN ")]
     K.model = [parse_run_line(l) for l in pm.stdout.split("\n") if l.startswith("RUN ")]
     if len(K.impl) != len(K.model):
